@@ -18,7 +18,8 @@
      pinned code   : dictionaries and sentinel are plain `send`s       (dm, sm arbitrary)
      repaired code : dictionaries are `ssend`s (commit aeec5f0): dm = Sync, sm arbitrary.
    The scatter is an enqueue in both modes (more interleavings than rendezvous would allow,
-   which only strengthens the no-loss theorems).  No proofs in this file. *)
+   which only strengthens the no-loss theorems).
+   At the end: error paths under MPI (alignment of collective calls).  No proofs in this file. *)
 From Verif Require Import Prelude Dispatch.
 From Coq Require Import Permutation.
 Open Scope nat_scope.
@@ -196,3 +197,59 @@ Arguments Stop {A}.
 Definition f13b_chunks : list (chunk nat) := [([1], [[2]])].
 Definition f13b_choices : list wchoice :=
   [XScatter; XRSend; XProc 0; XREnter; XEnter 0; XBarrier; XRStop; XTakeR; XTakeR; XFinal].
+
+(* ---- error paths (documented refusals) under MPI: alignment of collective calls ----
+   A refused request (probe larger than the random sample, cache exists, non-finite value, ...)
+   must end on EVERY rank.  A rank's run is abstracted to the list of collective calls it enters
+   on one communicator until it returns or raises; a call is a number (8 * kind + root + 1, root
+   part 0 when the call has none; kinds Barrier 1, bcast 2, Bcast 3, gather 4, Split 5).
+   Collectives synchronise: a call completes when every member has entered the SAME call
+   (harness/sim/mpi4py: the most blocking behaviour MPI allows; a member that has already left,
+   or one that entered a different call, blocks the others for good).  A world is the list of
+   the members' remaining traces.  Point-to-point traffic is abstracted away, so the model gives
+   a NECESSARY condition for termination of a real run (all ranks returned -> aligned). *)
+Notation ctrace := (list nat) (only parsing).
+Notation cworld := (list (list nat)) (only parsing).
+
+Inductive cstep : cworld -> cworld -> Prop :=
+| cstep_all k (w : cworld) :
+    w <> [] -> (forall t, In t w -> exists t', t = k :: t') -> cstep w (map (@tl nat) w).
+Definition cdone (w : cworld) : Prop := forall t, In t w -> t = [].
+Inductive creach : cworld -> cworld -> Prop :=
+| creach_refl w : creach w w
+| creach_step w w1 w2 : cstep w w1 -> creach w1 w2 -> creach w w2.
+(* every rank returns (normally or by raising) *)
+Definition cterminates (w : cworld) : Prop := exists w', creach w w' /\ cdone w'.
+(* some rank has not returned and no collective can complete, now or ever *)
+Definition cstuck (w : cworld) : Prop := ~ cdone w /\ forall w', ~ cstep w w'.
+
+(* executable step and the executable criterion *)
+Definition head_is (k : nat) (t : ctrace) : bool := match t with k' :: _ => k' =? k | [] => false end.
+Definition cstep_fun (w : cworld) : option cworld :=
+  match w with
+  | (k :: _) :: _ => if forallb (head_is k) w then Some (map (@tl nat) w) else None
+  | _ => None
+  end.
+Definition aligned (w : cworld) : bool :=
+  match w with [] => true | t0 :: r => forallb (nlist_eqb t0) r end.
+
+(* refusal disciplines.  [pre]: the collectives before the point of refusal, [body]: the rest of
+   the refused operation, [next]: whatever the caller does after it has handled the error (a
+   retry, the next operation, MPI_Finalize ...).
+   [refuse_all]: the refusal is decided by every rank (on replicated arguments, or agreed on by a
+   collective that is part of [pre]) - every rank leaves the operation at the same point.
+   [refuse_some who]: only the ranks in [who] detect it (the root that reads the data, the writer
+   rank that opens the cache, a worker that runs the job); the others go on with [body]. *)
+Definition world_of (n : nat) (prog : nat -> ctrace) : cworld := map prog (seq 0 n).
+Definition refuse_all (pre next : ctrace) : nat -> ctrace := fun _ => pre ++ next.
+Definition refuse_some (who : nat -> bool) (pre body next : ctrace) : nat -> ctrace :=
+  fun r => pre ++ (if who r then [] else body) ++ next.
+
+(* one refusal run of the implementation under the simulated world: [worlds] = per communicator
+   the collective traces of its members as logged (refused call, harness barrier, a valid
+   follow-up operation).
+   flag0: the log agrees with the model (all ranks returned -> every communicator aligned);
+   flag1: every rank returned; flag2: the root's outcome of the refused call is the
+   single-process one; flag3: the root's result of the follow-up operation is the single-process one *)
+Definition c06_refusal_case (worlds : list cworld) (all_returned root_same follow_same : bool) : nat :=
+  code [ implb all_returned (forallb aligned worlds); all_returned; root_same; follow_same ].
